@@ -4,4 +4,5 @@
 f11_0:
   ret
   call f6_0
+  mov wvsv2(%rip),%rax
   ret
